@@ -692,14 +692,15 @@ pub fn run(args: &Args) -> Report {
     ];
     let d2 = args.tier.pick(2, 3);
     let mut plans: Vec<(Vec<Op>, usize, usize)> = vec![];
-    for s in &seqs {
-        for rbuf in [1000usize, 70_000] {
-            plans.push((s.clone(), rbuf, d1));
-        }
-    }
+    // the listed long sequences first: if a slow machine ends the budget early, it is the short ones that are cut
     for s in &long {
         for rbuf in [1000usize, 70_000] {
             plans.push((s.clone(), rbuf, d2));
+        }
+    }
+    for s in &seqs {
+        for rbuf in [1000usize, 70_000] {
+            plans.push((s.clone(), rbuf, d1));
         }
     }
     // reader buffer of 1 byte only on small payloads (cost)
@@ -745,10 +746,10 @@ pub fn run(args: &Args) -> Report {
             rep.machinery_errors.push("vacuous tampering: no edit made the reader fail".into());
         }
     }
-    if witnesses_abandoned == 0 && rep.violations.is_empty() {
+    if witnesses_abandoned == 0 && rep.violations.is_empty() && !capped {
         rep.machinery_errors.push("vacuous: no execution gave up a write after Pending".into());
     }
-    if witnesses_pending == 0 && rep.violations.is_empty() {
+    if witnesses_pending == 0 && rep.violations.is_empty() && !capped {
         rep.machinery_errors.push("vacuous: no execution had a Pending inside poll_write".into());
     }
     rep.coverage = json!({
